@@ -9,29 +9,48 @@ HARNESS_BIN = "c09"
 NCASES = {"quick": 6000, "thorough": 150000}
 CASE_TIMEOUT = {"quick": 20, "thorough": 60}
 
-LEVEL_TEXT = ("Machine-checked Coq theorems: the sign-case tables of & | ^ ! >> (regenerated from the Rust source on every run) equal "
-              "Coq's infinite two's-complement operations on Z for all signs and magnitudes; the specifications of bit tests, "
-              "trailing/counting functions, split/clear, power-of-two functions are characterised by theorems on Z.testbit. The "
-              "word-level kernels under the tables are tied to these specifications by a correspondence run against the OCaml "
-              "extraction of the same definitions.")
+LEVEL_TEXT = ("Machine-checked Coq theorems (59 pinned, all closed under the global context), for every word size w > 0, every operand "
+              "length, sign, bit position and shift count: (1) the sign-case tables of & | ^ ! >> regenerated from the Rust source on "
+              "every run equal Coq's infinite two's-complement operations on Z; (2) word-level as-is models (little-endian word lists, "
+              "inline double word / heap buffer dispatch, Repr::from_buffer normalisation) of bitand_large / bitor_large / bitxor_large "
+              "/ and_not_large on unequal lengths (kept buffer, truncation, tail push), their *_large_dword forms and the "
+              "BitAnd/BitOr/BitXor/AndNot dispatch for all four ownership combinations compute Z.land / Z.lor / Z.lxor / Z.ldiff and "
+              "return a normalised value; (3) shl_in_place / shr_in_place (carry between words), shl_dword with both spill paths, "
+              "shl_large (in place or copied: same result), shr_dword / shr_large / shr_large_ref compute Z.shiftl / Z.shiftr; "
+              "are_dword_low_bits_nonzero / are_slice_low_bits_nonzero equal the predicate of the regenerated Shr table, so the as-is "
+              "IBig >> equals that table and is floor division by 2^n; impl_ibig_bitand/bitor/bitxor run over the word kernels equal "
+              "the regenerated tables; (4) bit (UBig and the two's-complement bit of a negative IBig), set_bit / clear_bit incl. spill "
+              "to a longer buffer, clear_high_bits, split_bits, bit_len, count_ones, count_zeros, is_power_of_two, next_power_of_two "
+              "(incl. overflow into a new word), UBig::ones, trailing_zeros, trailing_ones (incl. trailing_ones_neg and the "
+              "shifted-by-one scan) each equal their specification, which is characterised on Z.testbit. Every case of the "
+              "correspondence run is evaluated by the extracted word-level models at the 64-bit word size and compared with the "
+              "implementation's answer (model fidelity asis=same|diff, must be 100 %).")
 LEVEL_NOTE = ("Trusted: Coq kernel, translator dictionary (bitand->Z.land ...), extraction incl. FastZ.v directives, zarith, harness. "
-              "Word-loop kernels (bitand_large, shl_in_place, ...) are modelled at value level, not proved; they are compared on every run.")
-TECHNIQUE = "Coq proof over source-regenerated sign tables + extracted-spec correspondence run"
+              "Proved about hand-written models of the kernels, tied to the code by the run (value of every answer; the models are "
+              "transcribed by hand from bits.rs / shift.rs / shift_ops.rs / math.rs / repr.rs). Machine-integer primitives (& | ^ ! << >> "
+              "on Word/DoubleWord, leading_zeros, count_ones, trailing_zeros, is_power_of_two, checked_next_power_of_two) are modelled "
+              "by the Z function of the same meaning. Only compared, not modelled: the primitive-operand forms (UBig/IBig op u8..i128; proved only: `& unsigned primitive` always fits the primitive type), "
+              "the *Assign forms other than >>= / <<=, sub_one / add_one / Not / negation inside the IBig tables (value level; C01), "
+              "buffer capacities and which allocation is reused (not observable through values).")
+TECHNIQUE = "Coq proofs over source-regenerated sign tables and hand-transcribed word-level as-is models + extracted-model correspondence run"
 RULE = ("cases = operation x operands drawn from word-count classes {0,1,2,3,4,5,8,T-1,T,T+1 for the size thresholds} x "
-        "bit patterns {all-ones, 2^k, 2^k+-1, low words zero, top word 1/MAX, sparse, 0/MAX words, random} x both signs; "
+        "bit patterns {all-ones, 2^k, 2^k+-1, low words zero, top word 1/MAX, sparse, 0/MAX words, random} x both signs x "
+        "all four by-value/by-reference operand combinations; "
         "bit positions / shift counts from {0, 1, multiples of the word size +-1, bit length +-1, up to length+130}. "
         "A case is non-trivial when the oracle evaluated the Coq specification on it and at least one operand is non-zero; "
         "distinct = distinct case texts.")
 EXPLANATION = ("Theorems (coq/props/C09.v): the sign-case tables regenerated from bits.rs/shift_ops.rs equal Z.land/Z.lor/Z.lxor/"
-               "Z.lnot/Z.shiftr for all signs and magnitudes; the specifications of the counting/splitting functions are "
-               "characterised on Z.testbit. Tie to the code: tables are re-translated from the source on every run; every "
-               "other operation is compared with the extracted specification on generated inputs.")
+               "Z.lnot/Z.shiftr for all signs and magnitudes; word-level models of every magnitude kernel (Int/BitsKernels.v) equal "
+               "the Z operation / the BitsSpec specification for every word size and return normalised representations; the "
+               "specifications are characterised on Z.testbit. Tie to the code: tables are re-translated from the source on every "
+               "run; every case is also run through the extracted word-level models and compared with the implementation.")
 TRUSTED_BASE = [
-    "Coq 8.16.1 kernel (coqc; vm_compute not used in C09 proofs)",
-    "tools/translate.py renders the macro bodies impl_ibig_bit*/Not/Shr faithfully; dictionary: bitand->Z.land, bitor->Z.lor, bitxor->Z.lxor, and_not->Z.ldiff, sub_one->Z.pred, add_one->Z.succ, >> on magnitudes -> Z.shiftr, are_low_bits_nonzero -> (m mod 2^n <> 0)",
+    "Coq 8.16.1 kernel (coqc; vm_compute only in the non-vacuity Example of the word-level theorems)",
+    "tools/translate.py renders the macro bodies impl_ibig_bit*/Not/Shr faithfully; dictionary: bitand->Z.land, bitor->Z.lor, bitxor->Z.lxor, and_not->Z.ldiff, sub_one->Z.pred, add_one->Z.succ, >> on magnitudes -> Z.shiftr, are_low_bits_nonzero -> (m mod 2^n <> 0); the entries for bitand/bitor/bitxor/and_not/>>/are_low_bits_nonzero are now justified by theorems about the word-level models (C09_repr_bitand ... C09_are_low_bits_nonzero), sub_one/add_one belong to C01",
+    "coq/theories/Int/BitsKernels.v is a faithful hand transcription of the kernels of integer/src/bits.rs, shift.rs, shift_ops.rs (mod repr), math.rs (ones_word, ones_dword, shl_dword, shr_word) and repr.rs (from_buffer, ones); machine-integer primitives are modelled by the Z function of the same meaning; checked on every run by comparing the extracted models with the implementation on every case (asis=same|diff)",
     "extraction: ExtrOcamlBasic + ExtrOcamlZBigInt + the Extract Constant directives of coq/extract/FastZ.v (Z.land/lor/lxor/ldiff/lnot/testbit/log2/... -> zarith)",
     "OCaml 4.13.1 + zarith 1.12, oracle/common.ml, oracle/driver_c09.ml; Rust harness harness/src/bin/c09.rs",
-    "magnitude-level kernels (word loops of bitand_large etc.) are modelled by their Z-level meaning and tied by the correspondence run only",
+    "the oracle runs the word-level models at w = 64 only (the harness build's word size); other word sizes are covered by the theorems (universally quantified w) and by C19's builds",
 ]
 ASSUMPTIONS = [
     "UBig::from_words / as_words / IBig::from_parts / as_sign_words transport values faithfully (used by the harness instead of any parser)",
@@ -54,8 +73,8 @@ def positions(rng, a):
 
 def gen_cases(rng, tier, n):
     out = []
-    binops = ["and", "or", "xor", "and_rr", "or_rr", "xor_rr"]
-    ubin = ["uand", "uor", "uxor", "uand_rv", "uor_vr", "uxor_rr"]
+    binops = ["and", "or", "xor", "and_rr", "or_rr", "xor_rr", "and_vr", "or_vr", "xor_vr", "and_rv", "or_rv", "xor_rv"]
+    ubin = ["uand", "uor", "uxor", "uand_rv", "uor_vr", "uxor_rr", "uand_vr", "uand_rr", "uor_rv", "uor_rr", "uxor_vr", "uxor_rv"]
     mixed = ["and_ui", "and_iu", "or_ui", "or_iu", "xor_ui", "xor_iu"]
     unsigned_t = ["u8", "u16", "u32", "u64", "u128", "usize"]
     signed_t = ["i8", "i16", "i32", "i64", "i128", "isize"]
@@ -118,6 +137,10 @@ def gen_cases(rng, tier, n):
         elif k < 92:
             a = gen_int(rng, tier)
             r = rng.below(4)
+            if r == 1:
+                # low word exactly 1 (or 0/2/3) under zero words: the shifted-by-one scan of trailing_ones_neg restarts at word 1
+                a = (abs(a) << rng.choice([64, 128, 192, 193, 255])) | rng.choice([1, 1, 1, 0, 2, 3])
+                a = -a if rng.chance(2, 3) else a
             if r == 0:
                 # low part all ones / zeros to stress the word scans
                 low = rng.choice([64, 65, 127, 128, 129, 192, 200])
